@@ -169,6 +169,51 @@ def check_emitter_views(sd):
     return fails[:3]
 
 
+UNIT_POOL = ['fg', 'mM', 'degree', 'radian', 'percent', 'mmol/mol', 'count', 'dimensionless', 'fg/fL', 'um/um']
+
+
+def check_unit_series(sd):
+    """a stable history whose variables are scalar quantities (also dimensionless ones that still carry a unit: degree,
+    percent, mmol/mol): every emitted cell can be read back -- magnitude AND unit -- from the embedded and the path
+    timeseries, where a unit-bearing variable `v` is the series keyed (v, unit)"""
+    from vivarium.library.units import Quantity
+    rng = random.Random(sd)
+    names = rng.sample(['v1', 'v2', 'v3', 'v4'], rng.choice([1, 2, 3]))
+    unit_of = {n: rng.choice(UNIT_POOL + [None]) for n in names}
+    nest = rng.random() < 0.5
+    try:
+        qs = {n: (units(u) if u else None) for n, u in unit_of.items()}
+    except Exception:       # a unit the registry does not define: nothing to check
+        return []
+    em = RAMEmitter({})
+    for i in range(rng.choice([1, 2, 3, 4])):
+        vals = {n: (rng.choice([0, 1.5, 2, 90, 25.0]) * qs[n] if qs[n] is not None else rng.choice([0, 1.5, 'x'])) for n in names}
+        cell = {'inner': vals} if nest else vals
+        em.emit({'table': 'history', 'data': {'time': float(i), 'cell': cell}})
+    fails = []
+    raw = em.get_data_deserialized()
+    times = list(raw)
+    for label, emb, pth in (('emitter', em.get_timeseries(), em.get_path_timeseries()),
+                            ('from_data', timeseries_from_data(copy.deepcopy(raw)), path_timeseries_from_data(copy.deepcopy(raw)))):
+        for idx, t in enumerate(times):
+            for path, v in leaves(raw[t]):
+                node = get(emb, path[:-1])
+                if isinstance(v, Quantity):
+                    ek, pk = (path[-1], str(v.units)), path[:-1] + ((path[-1], str(v.units)),)
+                else:
+                    ek, pk = path[-1], path
+                ecell = node[ek][idx] if isinstance(node, dict) and ek in node and len(node[ek]) > idx else KeyError
+                pcell = pth[pk][idx] if pk in pth and len(pth[pk]) > idx else KeyError
+                want = v.magnitude if isinstance(v, Quantity) else v
+                if ecell is KeyError or ecell != want or type(ecell) != type(want):
+                    fails.append('%s embedded timeseries: no cell %r[%d] == %r for %s emitted as %r at t=%s (keys there: %s)'
+                                 % (label, ek, idx, want, path, v, t, list(node) if isinstance(node, dict) else node))
+                if pcell is KeyError or pcell != want or type(pcell) != type(want):
+                    fails.append('%s path timeseries: no cell %r[%d] == %r for %s emitted as %r at t=%s'
+                                 % (label, pk, idx, want, path, v, t))
+    return fails[:3]
+
+
 def main():
     ap = argparse.ArgumentParser()
     ap.add_argument('--tier', default='quick'); ap.add_argument('--seed', type=int, default=0)
@@ -219,6 +264,10 @@ def main():
 
     if a.replay:
         d = json.load(open(a.replay))['scenario']
+        if 'rng_u' in d:
+            L.emit_result({'status': 'reproduced' if check_unit_series(d['rng_u']) else 'not-reproduced',
+                           'failed': check_unit_series(d['rng_u'])})
+            return
         if 'rng_q' in d:
             L.emit_result({'status': 'reproduced' if check_emitter_views(d['rng_q']) else 'not-reproduced',
                            'failed': check_emitter_views(d['rng_q'])})
@@ -252,6 +301,16 @@ def main():
         if fails:
             rp = L.write_replay(a.out, 'C18', 'qviews%d' % i, {'rng_q': sd}, fails, extra={'driver': 'bounded.c18'})
             failures.append({'id': 'C18.bounded.emitter-views#%d: %s' % (i, fails[0][:200]), 'replay': rp})
+    for i in range(300 if a.tier == 'quick' else 5000):
+        if len(failures) >= 3:
+            break
+        sd = 'c18u-%d-%d' % (a.seed, i)
+        evaluations += 1
+        fails = check_unit_series(sd)
+        distinct.add(sd)
+        if fails:
+            rp = L.write_replay(a.out, 'C18', 'useries%d' % i, {'rng_u': sd}, fails, extra={'driver': 'bounded.c18'})
+            failures.append({'id': 'C18.bounded.unit-series#%d: %s' % (i, fails[0][:240]), 'replay': rp})
     L.emit_result({'status': 'violated' if failures else 'ok', 'evaluations': evaluations,
                    'distinct_nontrivial': len(distinct), 'failures': failures, 'samples': samples,
                    'rule': 'seeded random histories; non-trivial = >= 2 rows with at least one falsy value; distinct by content'})
